@@ -32,6 +32,10 @@ var jsAlphabet = []string{"a", "<", ">", "&", "\\", "\"", "\\u003c", "\\u003e", 
 	"\U0001F600", "e\u0301", "\u2028", "\u2029", "\ufeff", "\\ud83d\\ude00", "\\ud800", "\ufffd", "%", "%d", "%%", "%s", "100%"}
 
 func genJStr(t *rapid.T, label string) string {
+	if rapid.IntRange(0, 9).Draw(t, label+"look") == 0 {
+		// whole strings that look like a literal of another notation or like a piece of JSON text (see lookalikes)
+		return rapid.SampledFrom(lookalikes).Draw(t, label+"la")
+	}
 	n := rapid.IntRange(0, 6).Draw(t, label+"n")
 	var sb strings.Builder
 	for i := 0; i < n; i++ {
